@@ -13,12 +13,13 @@ import (
 )
 
 // "Body" sorts before "_id" byte-wise: the field list must still start with `_id`.
-var FieldVocab = []string{"_id", "a", "b", "title", "zz", "Body"}
+// "A0" too; "" is a legal (if unusual) field name: the property quantifiers do not exclude it.
+var FieldVocab = []string{"_id", "a", "b", "title", "zz", "Body", "A0", ""}
 
 // UnknownField is never part of a batch.
 const UnknownField = "nope"
 
-var ProbeFields = append(append([]string{}, FieldVocab...), UnknownField, "")
+var ProbeFields = append(append([]string{}, FieldVocab...), UnknownField)
 
 // terms whose length sits on / beyond the one-byte varint boundary
 var term128 = strings.Repeat("q", 128)
@@ -106,12 +107,28 @@ func GenBatch(t *rapid.T, sc *Scenario, maxDocs int) Batch {
 			allowed = append(allowed, f)
 		}
 	}
+	if len(allowed) > 1 && rapid.IntRange(0, 3).Draw(t, "keepEmptyName") != 0 {
+		var a2 []string
+		for _, f := range allowed {
+			if f != "" {
+				a2 = append(a2, f)
+			}
+		}
+		allowed = a2
+	}
 	nDocs := rapid.IntRange(0, maxDocs).Draw(t, "nDocs")
 	b := make(Batch, nDocs)
 	for di := range b {
 		nf := rapid.IntRange(0, 4).Draw(t, "nFields")
 		for fi := 0; fi < nf; fi++ {
 			b[di].Fields = append(b[di].Fields, genField(t, sc, allowed))
+		}
+		if nf > 0 && rapid.IntRange(0, 15).Draw(t, "manyInstances") == 0 {
+			// a multi-valued field: 9..20 more instances of the first field, each stored
+			f0 := b[di].Fields[0]
+			for k := rapid.IntRange(9, 20).Draw(t, "nInstances"); k > 0; k-- {
+				b[di].Fields = append(b[di].Fields, Field{Name: f0.Name, DV: f0.DV, Store: true, Value: fmt.Sprintf("inst-%d", k), Len: 1, Terms: []Term{{T: "m", Freq: 1}}})
+			}
 		}
 	}
 	fixLocFields(b)
@@ -138,7 +155,7 @@ func genField(t *rapid.T, sc *Scenario, allowed []string) Field {
 		nl := rapid.SampledFrom([]int{0, 0, 0, 1, 1, 2, 3}).Draw(t, "nLocs")
 		for li := 0; li < nl; li++ {
 			l := Loc{
-				Field: rapid.SampledFrom([]string{"", "", f.Name, "a", "b", "title", "zz", "_id", "Body"}).Draw(t, "locField"),
+				Field: rapid.SampledFrom([]string{"", "", f.Name, "a", "b", "title", "zz", "_id", "Body", "A0"}).Draw(t, "locField"),
 				Pos:   rapid.SampledFrom(posVals).Draw(t, "pos"),
 				Start: rapid.SampledFrom(posVals).Draw(t, "start"),
 				End:   rapid.SampledFrom(posVals).Draw(t, "end"),
@@ -340,18 +357,19 @@ func (p BlocksParams) Batch(sc *Scenario) Batch {
 // that the adaptive chunk mode itself yields several chunks), sparse terms,
 // doc values and documents without the field.
 type WideParams struct {
-	N          int
-	DenseSkip  int // dense term absent from docs with i%DenseSkip==DenseOff (0: present everywhere)
-	DenseOff   int
-	DenseLocs  int // every DenseLocs-th dense posting carries a location (0: none)
-	SparsePer  int // sparse term "s<i%SparsePer>" in docs with i%3==0
-	NoFieldPer int // docs with i%NoFieldPer==1 have no field "a" at all (0: never)
-	SecondDV   bool
-	FreqMod    int
-	RepeatA    int    // >0: docs with i%RepeatA==0 carry a second instance of field "a" listing the dense term again
-	DenseName  string // name of the dense term ("dense" or "dense2": merge inputs whose dense terms differ)
-	GapField   int    // >0: doc-value field "b" occurs only in document 3 and in documents >= GapField: whole 1024-document doc-value chunks without any value
-	DenseExact int    // >0: the dense term occurs in exactly the first DenseExact documents that have field "a" (an exact multiple of 1024: the boundary of the adaptive chunk-count formula)
+	N            int
+	DenseSkip    int // dense term absent from docs with i%DenseSkip==DenseOff (0: present everywhere)
+	DenseOff     int
+	DenseLocs    int // every DenseLocs-th dense posting carries a location (0: none)
+	SparsePer    int // sparse term "s<i%SparsePer>" in docs with i%3==0
+	NoFieldPer   int // docs with i%NoFieldPer==1 have no field "a" at all (0: never)
+	SecondDV     bool
+	FreqMod      int
+	RepeatA      int    // >0: docs with i%RepeatA==0 carry a second instance of field "a" listing the dense term again
+	EmptyTermPer int    // >0: docs with i%EmptyTermPer==1 also list the empty term (freq 2) in field "a"
+	DenseName    string // name of the dense term ("dense" or "dense2": merge inputs whose dense terms differ)
+	GapField     int    // >0: doc-value field "b" occurs only in document 3 and in documents >= GapField: whole 1024-document doc-value chunks without any value
+	DenseExact   int    // >0: the dense term occurs in exactly the first DenseExact documents that have field "a" (an exact multiple of 1024: the boundary of the adaptive chunk-count formula)
 }
 
 func GenWide(t *rapid.T) WideParams {
@@ -367,6 +385,7 @@ func GenWide(t *rapid.T) WideParams {
 	p.FreqMod = rapid.IntRange(1, 4).Draw(t, "freqMod")
 	p.RepeatA = rapid.SampledFrom([]int{0, 0, 1, 2, 3}).Draw(t, "repeatA")
 	p.DenseName = rapid.SampledFrom([]string{"dense", "dense", "dense2"}).Draw(t, "denseName")
+	p.EmptyTermPer = rapid.SampledFrom([]int{0, 0, 2, 3, 40}).Draw(t, "emptyTermPer")
 	if p.N > 1030 && rapid.Bool().Draw(t, "gapField") {
 		p.GapField = rapid.SampledFrom([]int{1024, 1030, 2048, 2050, p.N - 2}).Draw(t, "gapStart")
 		if p.GapField >= p.N {
@@ -415,6 +434,10 @@ func (p WideParams) Batch(sc *Scenario) Batch {
 			}
 			fa.Terms = append(fa.Terms, tm)
 			fa.Len += tm.Freq
+		}
+		if p.EmptyTermPer > 0 && i%p.EmptyTermPer == 1 {
+			fa.Terms = append(fa.Terms, Term{T: "", Freq: 2})
+			fa.Len += 2
 		}
 		if i%3 == 0 {
 			tm := Term{T: fmt.Sprintf("s%d", i%p.SparsePer), Freq: 2}
